@@ -165,6 +165,10 @@ package seat_manager
 //@   ensures DEACTEMPTY()
 //@   ensures forall j :: 0 <= j && j < sm.max && DD(sm, j) <= DD(sm, sm.bb.ID) ==> (sm.seats[j].IsActive ==> old(sm.seats[j].IsActive))
 //@   ensures CNT(sm, sm.max) >= old(CNT(sm, sm.max))
+//@   -- late join (C08): an empty seat strictly between the dealer and the big blind is switched off, every seat behind
+//@   -- the big blind is switched on
+//@   ensures [C08] forall j :: 0 <= j && j < sm.max && 0 < DD(sm, j) && DD(sm, j) < DD(sm, sm.bb.ID) && sm.seats[j].Player == nil ==> !sm.seats[j].IsActive
+//@   ensures [C08] forall j :: 0 <= j && j < sm.max && DD(sm, j) > DD(sm, sm.bb.ID) ==> sm.seats[j].IsActive
 //@   assert findActivePlayer:1 len(seats) == sm.max - 1
 //@   assert findActivePlayer:1 forall j :: 0 <= j && j < sm.max && j != sm.dealer.ID ==> seats[DD(sm, j) - 1] == sm.seats[j]
 //@   assert findActivePlayer:1 result != nil
@@ -178,6 +182,10 @@ package seat_manager
 //@   loop 2 invariant len(seats) == sm.max - DD(sm, sm.bb.ID) - 1
 //@   loop 2 invariant forall k :: 0 <= k && k < len(seats) ==> seats[k] == sm.seats[ROT(sm.dealer.ID, DD(sm, sm.bb.ID) + 1 + k, sm.max)]
 //@   loop 2 invariant forall j :: 0 <= j && j < sm.max && DD(sm, j) <= DD(sm, sm.bb.ID) ==> (sm.seats[j].IsActive ==> old(sm.seats[j].IsActive))
+//@   loop 1 invariant [C08] forall k :: 0 <= k && k <= rangeindex ==> origSeats[k] != sm.bb && (origSeats[k].Player == nil ==> !origSeats[k].IsActive)
+//@   loop 2 invariant [C08] forall j :: 0 <= j && j < sm.max && 0 < DD(sm, j) && DD(sm, j) < DD(sm, sm.bb.ID) && sm.seats[j].Player == nil ==> !sm.seats[j].IsActive
+//@   loop 2 invariant [C08] forall k :: 0 <= k && k <= rangeindex ==> seats[k].IsActive
+//@   loop 2 invariant [C08] forall j :: 0 <= j && j < sm.max && DD(sm, j) > DD(sm, sm.bb.ID) ==> seats[DD(sm, j) - DD(sm, sm.bb.ID) - 1] == sm.seats[j]
 
 //@ func (*SeatManager).Next(sm) (err)
 //@   locks
@@ -205,6 +213,11 @@ package seat_manager
 //@   ensures [C08] err == nil ==> DD(sm, sm.sb.ID) < DD(sm, sm.bb.ID)
 //@             && (forall j :: 0 <= j && j < sm.max && 0 < DD(sm, j) && DD(sm, j) < DD(sm, sm.bb.ID) && sm.seats[j] != sm.sb ==> !PLAYABLE(sm.seats[j]))
 //@   ensures [C08] err == nil && sm.sb != sm.dealer ==> sm.bb != sm.dealer && sm.bb != sm.sb && CNT(sm, sm.max) >= 3
+//@   -- late join: a player who takes an empty seat strictly between the dealer and the big blind finds it switched off
+//@   -- (and Join / Seat / Reserve / Leave never touch IsActive: frame obligations), so is not dealt in before the button
+//@   -- has passed; every seat behind the big blind is switched on, so is dealt in from then on
+//@   ensures [C08] err == nil ==> (forall j :: 0 <= j && j < sm.max && 0 < DD(sm, j) && DD(sm, j) < DD(sm, sm.bb.ID) && sm.seats[j].Player == nil ==> !sm.seats[j].IsActive)
+//@   ensures [C08] err == nil ==> (forall j :: 0 <= j && j < sm.max && DD(sm, j) > DD(sm, sm.bb.ID) ==> sm.seats[j].IsActive)
 
 // ---------------------------------------------------------------------------
 // joining, leaving, sitting in (C18)
@@ -232,7 +245,7 @@ package seat_manager
 
 //@ func (*SeatManager).join(sm, seatID, p) (res, err)
 //@   locked
-//@   props C18
+//@   props C18 C08
 //@   requires WFSM(sm) && 0 <= seatID && seatID < sm.max && p != nil
 //@   modifies sm.seats[seatID].IsReserved, sm.seats[seatID].Player
 //@   ensures old(sm.seats[seatID].Player) != nil ==> err == ErrNotAvailable && res == 0 - 1
@@ -241,7 +254,7 @@ package seat_manager
 
 //@ func (*SeatManager).leave(sm, seatID) (err)
 //@   locked
-//@   props C18
+//@   props C18 C08
 //@   requires WFSM(sm)
 //@   modifies Seat.IsReserved, Seat.Player
 //@   ensures [C18] !(0 <= seatID && seatID < sm.max) ==> err != nil && unchanged(Seat.IsReserved) && unchanged(Seat.Player)
@@ -265,7 +278,7 @@ package seat_manager
 
 //@ func (*SeatManager).Join(sm, seatID, p) (res, err)
 //@   locks
-//@   props C18
+//@   props C18 C08
 //@   requires WFSM(sm) && p != nil
 //@   modifies Seat.IsReserved, Seat.Player
 //@   allocs elems(int)
@@ -287,7 +300,7 @@ package seat_manager
 
 //@ func (*SeatManager).Leave(sm, seatID) (err)
 //@   locks
-//@   props C18
+//@   props C18 C08
 //@   requires WFSM(sm)
 //@   modifies Seat.IsReserved, Seat.Player
 //@   ensures WFSM(sm)
@@ -300,7 +313,7 @@ package seat_manager
 
 //@ func (*SeatManager).Seat(sm, seatID) (err)
 //@   locks
-//@   props C18
+//@   props C18 C08
 //@   requires WFSM(sm)
 //@   modifies Seat.IsReserved
 //@   ensures WFSM(sm)
@@ -310,7 +323,7 @@ package seat_manager
 
 //@ func (*SeatManager).Reserve(sm, seatID) (err)
 //@   locks
-//@   props C18
+//@   props C18 C08
 //@   requires WFSM(sm)
 //@   modifies Seat.IsReserved
 //@   ensures WFSM(sm)
